@@ -21,13 +21,23 @@ fn held(b: &[u64; 4], k: usize, p: u64) -> bool {
 
 /// receiver after EOF (size n symbolic), k held segments inside [0,n], metadata present or not
 fn after_eof(k: usize, ch: &Chans, seg: u16, md: Option<bool>) -> (RecvTransaction<ModelFs>, [u64; 4], u64, bool) {
+    let n: u64 = kani::any();
+    kani::assume(n < SZ);
+    let (s, b) = any_segments(k, n);
+    after_eof_with(s, b, k, n, ch, seg, md)
+}
+/// the same from a concrete shape: size 10, held (3,7) (the general list is C09's subject; this instance checks
+/// how the receiver composes the list query into its request queue)
+fn after_eof_concrete(ch: &Chans, md: Option<bool>) -> (RecvTransaction<ModelFs>, [u64; 4], u64, bool) {
+    let mut s = cfdp_daemon::verif::Segments::new();
+    s.merge((3, 7));
+    after_eof_with(s, [3, 7, 0, 0], 1, 10, ch, 64, md)
+}
+fn after_eof_with(s: cfdp_daemon::verif::Segments, b: [u64; 4], k: usize, n: u64, ch: &Chans, seg: u16, md: Option<bool>) -> (RecvTransaction<ModelFs>, [u64; 4], u64, bool) {
     verif::set_now(Duration::from_secs(NOW));
     let mut cfg = config(TransmissionMode::Acknowledged);
     cfg.file_size_segment = seg;
     let mut p = recv_parts(cfg, NakProcedure::Deferred(Duration::ZERO), ch);
-    let n: u64 = kani::any();
-    kani::assume(n < SZ);
-    let (s, b) = any_segments(k, n);
     let mut total = 0;
     let mut i = 0;
     while i < k {
@@ -120,16 +130,16 @@ fn check_queue(t: &RecvTransaction<ModelFs>, b: &[u64; 4], k: usize, n: u64, has
     assert!(zero == !has_md, "metadata requested exactly when missing");
 }
 
-fn all_naks_after_eof(k: usize, md: bool) {
+fn all_naks_after_eof(k: usize, md: bool, concrete: bool) {
     let ch = chans();
-    let (mut t, b, n, has_md) = after_eof(k, &ch, 64, Some(md));
+    let (mut t, b, n, has_md) = if concrete { after_eof_concrete(&ch, Some(md)) } else { after_eof(k, &ch, 64, Some(md)) };
     let p: u64 = kani::any();
     kani::assume(p < n);
     // NAK timer expiry: all gaps are queued again
     verif::set_now(Duration::from_secs(NOW + 5));
     t.handle_timeout().unwrap();
     check_queue(&t, &b, k, n, has_md, p);
-    kani::cover!(k >= 1 && b[0] > 0, "first segment missing");
+    kani::cover!(k == 0 || b[0] > 0, "first byte missing");
     forget(t);
     forget(ch);
 }
@@ -137,13 +147,17 @@ fn all_naks_after_eof(k: usize, md: bool) {
 // allocated on a concrete path; with the metadata present every push is conditional and the VecDeque growth under a
 // symbolic guard runs CBMC out of memory (> 38 GB) - that instance lives in the thorough tier.
 //# funcs=RecvTransaction::handle_timeout,get_all_naks,Segments::gaps; bound=after EOF (size < 2^32 symbolic), metadata missing, nothing held, NAK-timer expiry; stubs=S1,S2,S3
-th!(c08_q_all_naks_timer_k0, 8, { all_naks_after_eof(0, false) });
-//# funcs=RecvTransaction::handle_timeout,get_all_naks,Segments::gaps; bound=after EOF, metadata missing, 1 held segment (any sub-range of the file); stubs=S1,S2,S3
-th!(c08_q_all_naks_timer_k1, 8, { all_naks_after_eof(1, false) });
-//# funcs=RecvTransaction::handle_timeout,get_all_naks,Segments::gaps; bound=after EOF, metadata PRESENT, 1 held segment (may be inconclusive: memory); stubs=S1,S2,S3
-th!(c08_t_all_naks_timer_k1_md, 8, { all_naks_after_eof(1, true) });
-//# funcs=RecvTransaction::handle_timeout,get_all_naks,Segments::gaps; bound=after EOF, metadata missing, 2 held segments; stubs=S1,S2,S3
-th!(c08_t_all_naks_timer_k2, 9, { all_naks_after_eof(2, false) });
+th!(c08_q_all_naks_timer_k0, 8, { all_naks_after_eof(0, false, false) });
+//# funcs=RecvTransaction::handle_timeout,get_all_naks,Segments::gaps; bound=after EOF of a 10-byte file with (3,7) held, metadata missing, NAK-timer expiry, probe byte symbolic: marker + head + tail; stubs=S1,S2,S3
+th!(c08_q_all_naks_timer_k1, 8, { all_naks_after_eof(1, false, true) });
+//# funcs=RecvTransaction::handle_timeout,get_all_naks,Segments::gaps; bound=as above with the metadata present (no marker); stubs=S1,S2,S3
+th!(c08_q_all_naks_timer_k1_md, 8, { all_naks_after_eof(1, true, true) });
+//# funcs=RecvTransaction::handle_timeout,get_all_naks,Segments::gaps; bound=after EOF (size < 2^32 symbolic), metadata missing, 1 held segment (any sub-range of the file); 250 s / 9.5 GB alone; stubs=S1,S2,S3
+th!(c08_t_all_naks_timer_sym_k1, 8, { all_naks_after_eof(1, false, false) });
+//# funcs=RecvTransaction::handle_timeout,get_all_naks,Segments::gaps; bound=after EOF, metadata PRESENT, 1 held symbolic segment (may be inconclusive: memory); stubs=S1,S2,S3
+th!(c08_t_all_naks_timer_sym_k1_md, 8, { all_naks_after_eof(1, true, false) });
+//# funcs=RecvTransaction::handle_timeout,get_all_naks,Segments::gaps; bound=after EOF, metadata missing, 2 held symbolic segments (may be inconclusive: memory); stubs=S1,S2,S3
+th!(c08_t_all_naks_timer_sym_k2, 9, { all_naks_after_eof(2, false, false) });
 
 //# funcs=RecvTransaction::has_naks,has_pdu_to_send,Segments::is_complete; bound=after EOF (size symbolic), 0 or 1 held segment, metadata present/missing: "something is missing" is decided exactly; stubs=S1,S2,S3
 th!(c08_q_has_naks_exact, 8, {
@@ -188,19 +202,31 @@ th!(c08_t_all_naks_prompt_k1, 8, {
     forget(ch);
 });
 
-//# funcs=RecvTransaction::process_pdu(EoF),check_file_size,check_finished,has_naks,get_all_naks,prepare_ack_eof; bound=EOF arrives (size symbolic) with 0 or 1 held segment and the metadata missing, deferred procedure delay 0: ACK(EOF) armed, 0-0 marker + exactly the missing bytes queued; stubs=S1,S2,S3
-fn eof_then_nak(k: usize, queued: bool) {
+/// EOF arrives while data is missing. `sym`: file size symbolic and metadata missing (the 0-0 marker is then pushed
+/// unconditionally, see above - but the by-value PDU makes symex walk the Metadata arm of process_pdu too, which is
+/// only cheap when the metadata is already present); `!sym`: size 4, metadata present, every branch concrete.
+fn eof_then_nak(k: usize, queued: bool, sym: bool) {
     let ch = chans();
     verif::set_now(Duration::from_secs(NOW));
     let mut p = recv_parts(config(TransmissionMode::Acknowledged), NakProcedure::Deferred(Duration::ZERO), &ch);
-    let n: u64 = kani::any();
+    let n: u64 = if sym { kani::any() } else { 4 };
     kani::assume(n < SZ && n > 0);
-    let (s, b) = any_segments(k, n);
+    let (s, b) = if sym {
+        any_segments(k, n)
+    } else if k == 1 {
+        let mut s = cfdp_daemon::verif::Segments::new();
+        s.merge((1, 3));
+        (s, [1, 3, 0, 0])
+    } else {
+        (cfdp_daemon::verif::Segments::new(), [0, 0, 0, 0])
+    };
     p.saved_segments = s;
     let heldb = if k == 1 { b[1] - b[0] } else { 0 };
     p.received_file_size = heldb;
     p.nak_received_file_size = heldb;
-    // metadata still missing: the 0-0 marker is queued first (concrete allocation path, see above)
+    if !sym {
+        p.metadata = Some(metadata(true, 0, false, ChecksumType::Modular, vec![]));
+    }
     p.timer.inactivity = counter(10, 2, NOW, 0, false, false);
     if queued {
         // a request from before the EOF is still waiting to be sent (immediate procedure, or the rest of a split list)
@@ -213,17 +239,22 @@ fn eof_then_nak(k: usize, queued: bool) {
     t.process_pdu(directive(TransmissionMode::Acknowledged, Direction::ToReceiver, Operations::EoF(eof))).unwrap();
     assert!(t.verif_recv_state() == VRecvState::ReceiveData, "incomplete file is not finalised");
     assert!(matches!(t.verif_ack(), Some(a) if a.directive == PDUDirective::EoF), "ACK(EOF) armed");
-    check_queue(&t, &b, k, n, false, probe);
+    check_queue(&t, &b, k, n, !sym, probe);
     assert!(verif::recv_has_pdu_to_send(&t), "something is missing: ACK(EOF) and a NAK are due right after EOF (deferred, no delay)");
     kani::cover!(k == 0 || b[0] > 0, "first byte missing");
     forget(t);
     forget(ch);
 }
-th!(c08_q_eof_then_nak_k0, 8, { eof_then_nak(0, false) });
-//# funcs=RecvTransaction::process_pdu(EoF),get_all_naks,Segments::gaps; bound=as above with 1 held segment (any sub-range); stubs=S1,S2,S3
-th!(c08_q_eof_then_nak_k1, 8, { eof_then_nak(1, false) });
-//# funcs=RecvTransaction::process_pdu(EoF),get_all_naks; bound=as above (nothing held) with one request already queued when the EOF arrives: after EOF the queue is exactly the missing bytes + metadata marker; stubs=S1,S2,S3
-th!(c08_q_eof_then_nak_prequeued, 8, { eof_then_nak(0, true) });
+//# funcs=RecvTransaction::process_pdu(EoF),check_file_size,check_finished,has_naks,get_all_naks,prepare_ack_eof; bound=EOF (size 4, checksum symbolic) arrives with nothing held, metadata present, deferred procedure delay 0: ACK(EOF) armed, exactly the missing bytes queued (probe byte symbolic); stubs=S1,S2,S3
+th!(c08_q_eof_then_nak_k0, 8, { eof_then_nak(0, false, false) });
+//# funcs=RecvTransaction::process_pdu(EoF),get_all_naks,Segments::gaps; bound=as above with (1,3) of the 4 bytes held: head and tail requested; stubs=S1,S2,S3
+th!(c08_q_eof_then_nak_k1, 8, { eof_then_nak(1, false, false) });
+//# funcs=RecvTransaction::process_pdu(EoF),get_all_naks; bound=as k0 with one request already queued when the EOF arrives: after EOF the queue is exactly the missing bytes; stubs=S1,S2,S3
+th!(c08_q_eof_then_nak_prequeued, 8, { eof_then_nak(0, true, false) });
+//# funcs=RecvTransaction::process_pdu(EoF),get_all_naks,Segments::gaps; bound=EOF size symbolic < 2^32, metadata missing, nothing held (may be inconclusive: time); stubs=S1,S2,S3
+th!(c08_t_eof_then_nak_sym_k0, 8, { eof_then_nak(0, false, true) });
+//# funcs=RecvTransaction::process_pdu(EoF),get_all_naks,Segments::gaps; bound=EOF size symbolic, metadata missing, 1 held segment (any sub-range) (may be inconclusive: time); stubs=S1,S2,S3
+th!(c08_t_eof_then_nak_sym_k1, 8, { eof_then_nak(1, false, true) });
 
 //# funcs=RecvTransaction::send_pdu,send_naks,get_header; bound=queue of 2 symbolic requests (+ 0-0 marker present or not, per instance), file size < 2^32: the NAK PDU is well-formed, scope = first start..last end, requests kept in order; stubs=S1,S2,S3
 th!(c08_q_send_naks_wellformed, 8, {
@@ -295,6 +326,11 @@ fn immediate_new_gap(delayed: bool) {
     p.metadata = Some(metadata(true, 0, false, ChecksumType::Modular, vec![]));
     p.timer.inactivity = counter(10, 2, NOW, 0, false, false);
     p.timer.nak = counter(5, 2, NOW, 0, false, false);
+    if delayed {
+        // the delayed request is pushed under a symbolic guard (number of gaps): give the queue its buffer up front,
+        // growing a VecDeque on a symbolic path runs CBMC out of memory
+        p.naks = VecDeque::with_capacity(4);
+    }
     let mut t = RecvTransaction::verif_from_parts(p);
     let off: u64 = kani::any();
     kani::assume(off > b[1] && off < (1 << 30));
@@ -318,8 +354,76 @@ fn immediate_new_gap(delayed: bool) {
     forget(ch);
 }
 th!(c08_q_immediate_new_gap, 8, { immediate_new_gap(false) });
-//# funcs=RecvTransaction::process_pdu(FileData) immediate procedure with delay,handle_timeout (delayed NAK),Segments::gaps; bound=immediate procedure, delay 2 s: the gap is requested by the first timeout at t+2 s; stubs=S1,S2,S3,S5
-th!(c08_q_immediate_delayed_gap, 8, { immediate_new_gap(true) });
+//# funcs=RecvTransaction::process_pdu(FileData) immediate procedure with delay,handle_timeout (delayed NAK); bound=both steps in one harness, delay 2 s (may be inconclusive: time); stubs=S1,S2,S3,S5
+th!(c08_t_immediate_delayed_gap_two_steps, 8, { immediate_new_gap(true) });
+//# funcs=RecvTransaction::process_pdu(FileData) immediate procedure with delay,until_timeout; bound=immediate procedure, delay 2 s, nothing held, 1 byte at any offset in (0, 2^30): nothing queued yet, one delay timer for exactly the new gap, armed to fire within 2 s; stubs=S1,S2,S3,S5
+th!(c08_q_immediate_delayed_gap_armed, 8, {
+    let ch = chans();
+    link_libc();
+    verif::set_now(Duration::from_secs(NOW));
+    let mut p = recv_parts(config(TransmissionMode::Acknowledged), NakProcedure::Immediate(Duration::from_secs(2)), &ch);
+    p.metadata = Some(metadata(true, 0, false, ChecksumType::Modular, vec![]));
+    p.timer.inactivity = counter(10, 2, NOW, 0, false, false);
+    p.timer.nak = counter(5, 2, NOW, 0, false, false);
+    let mut t = RecvTransaction::verif_from_parts(p);
+    let off: u64 = kani::any();
+    kani::assume(off > 0 && off < (1 << 30));
+    t.process_pdu(filedata(TransmissionMode::Acknowledged, off, vec![kani::any()])).unwrap();
+    assert!(t.verif_naks().is_empty(), "not before the delay");
+    assert!(t.verif_delayed_len() == 1 && t.verif_delayed(0) == (0, off), "one delay timer for exactly the new gap");
+    assert!(verif::recv_until_timeout(&t) <= Duration::from_secs(2), "the delay timer wakes the transaction");
+    kani::cover!(true, "end");
+    forget(t);
+    forget(ch);
+});
+//# funcs=RecvTransaction::handle_timeout (delayed NAK),Segments::gaps; bound=state after the step above (1 byte held at a symbolic offset, one delay timer for the gap (0,off)), clock at the expiry: the gap is requested if it persists - and only the part of it that persists (a second held segment, symbolic, inside the gap, present or not); stubs=S1,S2,S3
+fn delayed_gap_fires(filled: bool) {
+    let ch = chans();
+    verif::set_now(Duration::from_secs(NOW));
+    let mut p = recv_parts(config(TransmissionMode::Acknowledged), NakProcedure::Immediate(Duration::from_secs(2)), &ch);
+    p.metadata = Some(metadata(true, 0, false, ChecksumType::Modular, vec![]));
+    p.timer.inactivity = counter(10, 2, NOW, 0, false, false);
+    p.timer.nak = counter(5, 2, NOW, 0, false, false);
+    let off: u64 = kani::any();
+    kani::assume(off > 0 && off < (1 << 30));
+    // part of the gap may have arrived in the meantime: (a,c) strictly inside (0,off), not touching either end
+    let (a, c): (u64, u64) = (kani::any(), kani::any());
+    kani::assume(0 < a && a < c && c < off);
+    if filled {
+        p.saved_segments.merge((a, c));
+    }
+    p.saved_segments.merge((off, off + 1));
+    p.received_file_size = 1 + if filled { c - a } else { 0 };
+    p.delayed_nack_timers = vec![(counter(2, 1, NOW, 0, false, false), 0, off)];
+    // the queue gets its buffer up front (rule 8: the pushes below depend on the symbolic number of gaps)
+    p.naks = VecDeque::with_capacity(4);
+    let mut t = RecvTransaction::verif_from_parts(p);
+    verif::set_now(Duration::from_secs(NOW + 2));
+    t.handle_timeout().unwrap();
+    let probe: u64 = kani::any();
+    kani::assume(probe < off);
+    let (q, tail) = t.verif_naks().as_slices();
+    assert!(tail.is_empty() && q.len() == if filled { 2 } else { 1 }, "one request per persisting part of the gap");
+    let mut covers = false;
+    let mut i = 0;
+    while i < 2 {
+        if i < q.len() {
+            assert!(q[i].start_offset < q[i].end_offset && q[i].end_offset <= off, "non-empty, inside the gap");
+            if q[i].start_offset <= probe && probe < q[i].end_offset {
+                covers = true;
+            }
+        }
+        i += 1;
+    }
+    assert!(covers == !(filled && a <= probe && probe < c), "a byte of the gap is requested exactly when it is still missing");
+    assert!(t.verif_delayed_len() == 0, "the delay timer is consumed");
+    kani::cover!(true, "end");
+    forget(t);
+    forget(ch);
+}
+th!(c08_q_immediate_delayed_gap_fires, 8, { delayed_gap_fires(false) });
+//# funcs=RecvTransaction::handle_timeout (delayed NAK),Segments::gaps; bound=as above, with a symbolic segment strictly inside the gap received in the meantime: two requests, exactly the parts still missing; stubs=S1,S2,S3
+th!(c08_q_immediate_delayed_gap_partly_filled, 8, { delayed_gap_fires(true) });
 
 //# funcs=RecvTransaction::send_naks,NegativeAcknowledgmentPDU::max_nak_num; bound=queue of 4 requests incl. 0-0, segment size 24 (capacity 2 requests per PDU): split over PDUs, each well-formed; stubs=S1,S2,S3
 th!(c08_q_split_over_pdus, 8, {
